@@ -405,6 +405,9 @@ class Interp(object):
       # "format" % values: only the fact that it is a str matters in the subset (messages)
       return SOpq(self.ctx.const("fmt", V.opaque_sort("StrMsg")), "StrMsg")
     a, b = self.unwrap(a, node, "+"), self.unwrap(b, node, "+")
+    if isinstance(op, ast.Add) and isinstance(a, (list, tuple)) and isinstance(b, (list, tuple)):
+      if type(a) is not type(b): self.raise_(TypeError, "can only concatenate like sequences", node=node)
+      return a + b          # concrete containers (members may be symbolic)
     if isinstance(op, ast.Add) and isinstance(a, (SSeq, list, tuple)) \
         and isinstance(b, (SSeq, list, tuple)):
       return self.models.seq_concat(self, a, b)
